@@ -41,6 +41,7 @@ type collideState struct {
 	plan     string
 	opened   map[string]bool // connections on which the harness sent its OPEN
 	survivor string
+	holds    map[string]int
 	done     bool
 	note     string
 }
@@ -106,7 +107,7 @@ func genCollide(seed uint64, tier, mode string) *Script {
 		// made either at its own instant or the moment gobgp's dial arrives
 		{Kind: "clisten", Actor: 1, Delay: pick(g, []int{0, 0, 1000, 4000, 6000})},
 		{Kind: "cin", Actor: 0, Delay: pick(g, []int{0, 100, 3000, 5000, 7000}), Arg: pick(g, []string{"ondial", "ondial", "timed"}), N: pick(g, []int{0, 0, 0, 1, 50})},
-		{Kind: "cplan", Actor: 2, Arg: plan, N: pick(g, []int{0, 0, 10, 500}), Count: pick(g, []int{0, 0, 0, 5, 300})},
+		{Kind: "cplan", Actor: 2, Arg: plan, N: pick(g, []int{0, 1, 10, 501}), Count: pick(g, []int{0, 1, 2, 5, 300, 301})},
 	}
 	sc.Phases = []Phase{{Ops: ops, Settle: 30, Check: true}}
 	sc.Final = pick(g, []string{"stop", "stopbgp", "deleteall"})
@@ -185,7 +186,20 @@ func (z *collideState) run(op *Op) {
 		time.Sleep(10 * time.Millisecond)
 	}
 	time.Sleep(time.Duration(op.N) * time.Millisecond)
-	open := w.buildOpenSpec(cfg, openSpec{Kind: "valid", Hold: 90, Families: []string{"ipv4-unicast"}, AS: cfg.AS})
+	// the two OPENs of one neighbour need not be identical: each connection negotiates for itself
+	// (C08: the session runs with the parameters of the OPEN received on ITS connection)
+	holdIn, holdOut := 90, 90
+	switch op.Count % 3 {
+	case 1:
+		holdOut = 30
+	case 2:
+		holdIn = 30
+	}
+	z.mu.Lock()
+	z.holds = map[string]int{"in": holdIn, "out": holdOut}
+	z.mu.Unlock()
+	openIn := w.buildOpenSpec(cfg, openSpec{Kind: "valid", Hold: holdIn, Families: []string{"ipv4-unicast"}, AS: cfg.AS})
+	openOut := w.buildOpenSpec(cfg, openSpec{Kind: "valid", Hold: holdOut, Families: []string{"ipv4-unicast"}, AS: cfg.AS})
 	gid := netip.MustParseAddr(w.sc.Global.RouterID).As4()
 	pid := netip.MustParseAddr(cfg.RouterID).As4()
 	g := uint32(gid[0])<<24 | uint32(gid[1])<<16 | uint32(gid[2])<<8 | uint32(gid[3])
@@ -199,12 +213,13 @@ func (z *collideState) run(op *Op) {
 	switch op.Arg {
 	case "both":
 		// same virtual instant on both connections; which one gobgp reads first is the scheduler's choice
-		first, second := in, out
-		if op.Count%2 == 1 {
-			first, second = out, in
+		if op.N%2 == 1 {
+			out.c.Write(openOut)
+			in.c.Write(openIn)
+		} else {
+			in.c.Write(openIn)
+			out.c.Write(openOut)
 		}
-		first.c.Write(open)
-		second.c.Write(open)
 		z.mu.Lock()
 		z.opened["in"], z.opened["out"] = true, true
 		z.survivor = sname
@@ -225,7 +240,7 @@ func (z *collideState) run(op *Op) {
 			w.probe("collide_equal_identifiers")
 		}
 	case "in":
-		in.c.Write(open)
+		in.c.Write(openIn)
 		survivor, sname = in, "in"
 		z.mu.Lock()
 		z.opened["in"] = true
@@ -233,7 +248,7 @@ func (z *collideState) run(op *Op) {
 		z.mu.Unlock()
 		w.probe("collide_plan_in_only")
 	case "out":
-		out.c.Write(open)
+		out.c.Write(openOut)
 		survivor, sname = out, "out"
 		z.mu.Lock()
 		z.opened["out"] = true
@@ -253,6 +268,7 @@ func (z *collideState) run(op *Op) {
 	// answer gobgp's KEEPALIVE on the surviving connection, and keep the session alive
 	end := time.Now().Add(25 * time.Second)
 	answered := false
+	lastKA := time.Now()
 	for time.Now().Before(end) {
 		select {
 		case <-w.stopCh:
@@ -272,14 +288,30 @@ func (z *collideState) run(op *Op) {
 					break
 				}
 			}
-		} else if int(time.Until(end)/time.Second)%10 == 0 {
+		} else if time.Since(lastKA) >= 5*time.Second {
 			survivor.c.Write(keepaliveBytes())
+			lastKA = time.Now()
 		}
 		time.Sleep(200 * time.Millisecond)
 	}
 	z.mu.Lock()
 	z.done = true
 	z.mu.Unlock()
+	if answered {
+		// keep the session alive until the run ends (the negotiated hold time may be 30 s)
+		go func() {
+			for {
+				select {
+				case <-w.stopCh:
+					return
+				case <-time.After(5 * time.Second):
+				}
+				if _, err := survivor.c.Write(keepaliveBytes()); err != nil {
+					return
+				}
+			}
+		}()
+	}
 }
 
 func collideCheck(w *simWorld, phase int) {
@@ -317,6 +349,17 @@ func collideCheck(w *simWorld, phase int) {
 		w.violate("C07", "collision-not-established", plan, fmt.Sprintf("%s; it is still open after 30 s, received %s, but the session is reported %s", desc, msgsString(rx), state))
 	default:
 		w.probe("collide_established_on_" + surv)
+		// C08: the hold time in force is min(configured 90, the OPEN received on the surviving connection)
+		z.mu.Lock()
+		want := z.holds[surv]
+		z.mu.Unlock()
+		if ps.Peer != nil && ps.Peer.Timers != nil && ps.Peer.Timers.State != nil && want != 0 {
+			if got := int(ps.Peer.Timers.State.NegotiatedHoldTime); got != want {
+				w.violate("C08", "collision-parameters", plan, fmt.Sprintf("%s; the OPEN received on it offered hold time %d, the session runs with %d (the other connection's OPEN offered %d)", desc, want, got, z.holds[map[string]string{"in": "out", "out": "in"}[surv]]))
+			} else if z.holds["in"] != z.holds["out"] {
+				w.probe("collide_parameters_of_survivor")
+			}
+		}
 	}
 	w.addStateFP(fmt.Sprintf("collide %s %s closed=%v state=%s", plan, surv, closed, state))
 	_ = api.PeerState_SESSION_STATE_ESTABLISHED
